@@ -220,6 +220,29 @@ def findRes : List Res → Bytes → Nat → Option (Nat × Res)
   | [], _, _ => none
   | r :: rs, p, i => if r.path = p then some (i, r) else findRes rs p (i + 1)
 
+/-! ### option value formats and the request view (D7) — shared by M and S -/
+def minimalUint : (fuel : Nat) → Nat → Bytes
+  | 0, _ => []
+  | f + 1, v => if v = 0 then [] else minimalUint f (v / 256) ++ [UInt8.ofNat (v % 256)]
+
+def lastByte (b : Bytes) : Nat := match b.getLast? with | some x => x.toNat | none => 0
+/-- RFC 7959 §2.2 on a datagram transport (SZX 7 is reserved there): NUM, M, SZX -/
+def block (v : Bytes) : Option (Nat × Bool × Nat) :=
+  if lastByte v % 8 = 7 then none else some (uintOf v / 16, lastByte v / 8 % 2 == 1, lastByte v % 8)
+
+def clearBlock2M : Opts → Opts
+  | [] => []
+  | (n, v) :: r =>
+    if n = 23 then
+      match block v with
+      | some (num, true, szx) => (23, minimalUint 4 (num * 16 + szx)) :: r
+      | _ => (n, v) :: r
+    else (n, v) :: clearBlock2M r
+
+def setHop (h : Nat) : Opts → Opts
+  | [] => []
+  | (n, v) :: r => if n = 16 then (16, minimalUint 8 h) :: r else (n, v) :: setHop h r
+
 end Coap.Server
 
 /-! ## S -/
@@ -276,29 +299,6 @@ def respType (reqType : Nat) : Nat := if reqType = CON then ACK else NON
 /-- library-generated message: only type, code, message id and token are prescribed (D4) -/
 def lib (type code mid : Nat) (token : Bytes) : Reply := ⟨.lib, type, code, mid, token, [], .bytes []⟩
 def errReply (m : Msg) (code : Nat) : Reply := lib (respType m.type) code m.mid m.token
-
-/-! ### request view (D7) -/
-def minimalUint : (fuel : Nat) → Nat → Bytes
-  | 0, _ => []
-  | f + 1, v => if v = 0 then [] else minimalUint f (v / 256) ++ [UInt8.ofNat (v % 256)]
-
-def lastByte (b : Bytes) : Nat := match b.getLast? with | some x => x.toNat | none => 0
-/-- RFC 7959 §2.2 on a datagram transport (SZX 7 is reserved there): NUM, M, SZX -/
-def block (v : Bytes) : Option (Nat × Bool × Nat) :=
-  if lastByte v % 8 = 7 then none else some (uintOf v / 16, lastByte v / 8 % 2 == 1, lastByte v % 8)
-
-def clearBlock2M : Opts → Opts
-  | [] => []
-  | (n, v) :: r =>
-    if n = 23 then
-      match block v with
-      | some (num, true, szx) => (23, minimalUint 4 (num * 16 + szx)) :: r
-      | _ => (n, v) :: r
-    else (n, v) :: clearBlock2M r
-
-def setHop (h : Nat) : Opts → Opts
-  | [] => []
-  | (n, v) :: r => if n = 16 then (16, minimalUint 8 h) :: r else (n, v) :: setHop h r
 
 /-! ### RFC 7967 + multicast suppression (D6) -/
 /-- No-Response: some true = "not interested in this class", some false = "interested", none = no option -/
